@@ -6,7 +6,8 @@ ID = "C04"
 TOL = (1e-6, 1e-9)
 BOUNDS = {
     "quick": "algebra: all 6-tuples (symbolic), all points; strings: every list of <=2 transform functions over 11 names x legal arities "
-             "x angle unit {none,deg,grad,rad,turn} (first function) x length unit {none,px,pt,pc,in} on translate; separator styles and letter case on single functions",
+             "x angle unit {none,deg,grad,rad,turn} (first function) x length unit {none,px,pt,pc,in} on translate; translate/translateX/translateY with units in, pt, pc before and after matrix, rotate, translate, scale, skewX "
+             "and next to each other; separator styles and letter case on single functions",
     "thorough": "as quick with lists of <=3 functions and units on every function",
 }
 OUTSIDE = ["transform lists longer than the bound", "numeric spellings (shared float pattern, see C01-lex)", "tan at its poles (skew by 90deg)",
